@@ -138,6 +138,28 @@ def optsets(tier):
     return t1, tl, t2
 
 
+FILLER_ELEMS = [' ', '/*c*/', '/*+h*/', '--c\n']
+
+
+def filler_texts(tier):
+    import itertools
+    from sqlparse import lexer, tokens as T
+    from vlib import explore
+    fillers = [''.join(f) for k in (1, 2, 3) for f in itertools.product(FILLER_ELEMS, repeat=k)]
+    fillers = [f for f in fillers if f.strip(' ')]
+    out = []
+    for si in range(len(grammar.SEEDS)):
+        if tier == 'quick' and si % 2:
+            continue
+        b, _ = explore.run(lambda c: grammar.build_stmt(c, si), {}, set())
+        toks = [v for _, v in lexer.tokenize(b.text())]
+        gaps = [i for i, v in enumerate(toks) if v == ' ']
+        for g in gaps:
+            for f in fillers:
+                out.append(''.join(toks[:g]) + f + ''.join(toks[g + 1:]))
+    return out
+
+
 def run(tier, seed):
     seeds = list(range(len(grammar.SEEDS)))
     t1, tl, t2 = optsets(tier)
@@ -188,6 +210,29 @@ def run(tier, seed):
     samples += ms['samples'][:2]
     report.append({'label': 'scripts of 2-3 seed statements x every separator filler x targeted option sets',
                    'scripts': ms['n'], 'option_sets': len(s_opts), 'format_calls': ms['extra']['format_calls']})
+    # ---- the language of gap fillers: every sequence of <= 3 of {blank, block comment, hint, line comment} in every
+    # gap of every seed (comment glued to one neighbour only, runs of comments with a hint among them, ...)
+    ftexts = filler_texts(tier)
+    f_opts = [dict(strip_comments=True), dict(strip_comments=True, strip_whitespace=True),
+              dict(strip_comments=True, reindent=True)]
+
+    def ev_filler(text, acc, sqlparse):
+        sig_in = oracles.sig(text, keep_types=True)
+        for o in f_opts:
+            acc.extra['format_calls'] += 1
+            bad = check_case(sqlparse, text, o, len(o) == 1, sig_in)
+            if bad:
+                acc.violation(e2.viol(bad[0], bad[1] + '|filler', bad[2], text, {}, 'filler', 1, o))
+        acc.case(text, True, outcome='filler', sample={'text': text})
+    mf = e2.run_texts(ftexts, ev_filler, seed, setup=_setup)
+    viols += mf['viol']
+    vc.update(mf['viol_count'])
+    n_eval += mf['extra']['format_calls']
+    n_dist += mf['distinct']
+    samples += mf['samples'][:2]
+    report.append({'label': 'every gap of every seed x every filler of <= 3 elements over {blank, /*c*/, /*+h*/, --c LF} '
+                            'x strip_comments alone / with strip_whitespace / with reindent',
+                   'scripts': mf['n'], 'option_sets': len(f_opts), 'format_calls': mf['extra']['format_calls']})
     cov = {
         'evaluations': n_eval, 'distinct_nontrivial': n_dist,
         'rule': 'cases = (seed derivation, <= d deviations among derivation alternatives / comments of 8 kinds in '
